@@ -4,7 +4,7 @@
 //! `obj.method(...)`, emitting diagnostics for missing fields/methods and incompatible uses.
 
 use crate::frontend::ast::*;
-use crate::frontend::diagnostics::errors;
+use crate::frontend::diagnostics::{CompileError, errors};
 use crate::frontend::symbols::*;
 use crate::frontend::typechecker::helpers::{
     collection_name, collection_type_id, is_frozen_bytes, is_frozen_str, is_intlike_for_index, list_ty, option_ty,
@@ -73,6 +73,48 @@ impl TypeChecker {
         true
     }
 
+    /// Report the parameters of a callable declared in this module that a call leaves without an argument and that
+    /// have no default value. Parameters are bound as in `validate_method_call_args`: by keyword, else by position.
+    pub(in crate::frontend::typechecker::check_expr) fn check_required_arguments(
+        &mut self,
+        callable: &str,
+        params: &[(String, ResolvedType)],
+        args: &[CallArg],
+        call_span: Span,
+    ) {
+        let Some(defaults) = self.param_defaults.get(callable) else {
+            return;
+        };
+        let mut positional_left = args.iter().filter(|a| matches!(a, CallArg::Positional(_))).count();
+        let mut missing: Vec<&str> = Vec::new();
+        for (param_name, _) in params {
+            let by_keyword = args
+                .iter()
+                .any(|a| matches!(a, CallArg::Named(name, _) if name == param_name));
+            if by_keyword {
+                continue;
+            }
+            if positional_left > 0 {
+                positional_left -= 1;
+                continue;
+            }
+            if !defaults.contains(param_name) {
+                missing.push(param_name.as_str());
+            }
+        }
+        if !missing.is_empty() {
+            self.errors.push(CompileError::type_error(
+                format!(
+                    "Missing argument{} in call to '{}': {}",
+                    if missing.len() == 1 { "" } else { "s" },
+                    callable,
+                    missing.join(", ")
+                ),
+                call_span,
+            ));
+        }
+    }
+
     /// Validate method call arguments against a method signature.
     pub(in crate::frontend::typechecker::check_expr) fn validate_method_call_args(
         &mut self,
@@ -130,6 +172,28 @@ impl TypeChecker {
                         &param_ty.to_string(),
                         &arg_ty.to_string(),
                         *arg_span,
+                    ));
+                }
+            }
+        }
+
+        // Arguments no parameter takes: surplus positional ones and keywords that name no parameter.
+        if let Some((_, span)) = positional.get(pos_idx) {
+            self.errors.push(CompileError::type_error(
+                format!(
+                    "Too many arguments: expected at most {}, found {}",
+                    params.len(),
+                    args.len()
+                ),
+                *span,
+            ));
+        }
+        for arg in args {
+            if let CallArg::Named(name, value) = arg {
+                if !params.iter().any(|(param_name, _)| param_name == name) {
+                    self.errors.push(CompileError::type_error(
+                        format!("Unknown keyword argument '{}'", name),
+                        value.span,
                     ));
                 }
             }
@@ -594,6 +658,7 @@ impl TypeChecker {
                             let params = method_info.params.clone();
                             let return_type = method_info.return_type.clone();
                             self.validate_method_call_args(&params, args, &arg_types);
+                            self.check_required_arguments(&format!("{}.{}", type_name, method), &params, args, span);
                             return return_type;
                         }
                         for trait_name in &model.traits {
@@ -610,6 +675,7 @@ impl TypeChecker {
                             let params = method_info.params.clone();
                             let return_type = method_info.return_type.clone();
                             self.validate_method_call_args(&params, args, &arg_types);
+                            self.check_required_arguments(&format!("{}.{}", type_name, method), &params, args, span);
                             return return_type;
                         }
                         for trait_name in &class.traits {
@@ -632,6 +698,7 @@ impl TypeChecker {
                             let params = method_info.params.clone();
                             let return_type = method_info.return_type.clone();
                             self.validate_method_call_args(&params, args, &arg_types);
+                            self.check_required_arguments(&format!("{}.{}", type_name, method), &params, args, span);
                             return return_type;
                         }
                     }
